@@ -138,7 +138,8 @@ def verify_function(key, tier='quick', keep_terms=False, discharge=True):
                 except Undecided as u:
                     st.prove('return-type', z3.BoolVal(False), kind='type')
                     raise PathEnd()
-                envr['result'] = rv2
+                # a parameter that is itself called `result` keeps its name; the return value is then `retval`
+                envr['retval' if 'result' in c.params else 'result'] = rv2
                 if getattr(c, 'ghost_exit', None):
                     E.run_ghost(st, c.ghost_exit)
                 # vacuity guard: the path must be feasible BEFORE the postconditions are assumed
